@@ -78,6 +78,9 @@ def _numtext(v):
     """the text a user types for the number v"""
     if isinstance(v, float):
         return repr(v)
+    if hasattr(v, "microsecond"):
+        # a fully specified date: YYYYMMDDhhmmssuuuuuu (an instant, so that exclusive bounds have one meaning)
+        return u"%04d%02d%02d%02d%02d%02d%06d" % (v.year, v.month, v.day, v.hour, v.minute, v.second, v.microsecond)
     return str(v)
 
 
@@ -166,7 +169,7 @@ def field_cases(run, rng, quick):
                         obs.append({"kind": "ids", "path": "%s/step%d %s" % (name, step, cls.__name__),
                                     "ids": sorted(int(d) for d in s.docs_for_query(q))})
                         # the same interval as the query parser hands it to the field (FieldType.parse_range)
-                        if name != "datetime":
+                        if True:
                             q2 = ftype.parse_range("num", _numtext(a) if haslo else None, _numtext(b) if hashi else None,
                                                    loex, hiex)
                             if q2 is not None:
